@@ -25,6 +25,11 @@ LITS = ["a.cc", "dir/b.cc", "/abs/path/to/file.cpp", "trailing/", "", "/", "a//b
         "no_slash_but_a_long_name_with_many_characters_0123456789_0123456789.cc", "dir.with.dots/f",
         "/verif/harness/logstream_drv.cc", "muduo/net/TcpConnection.cc", "x/y/z/", "//", "a b/c d.cc"]
 
+WHERE = {"main": "the main thread", "thread": "a muduo::Thread", "fork": "the child of a fork()",
+         "raw0": "a pthread_create'd thread whose first muduo call is this log statement",
+         "raw1": "a pthread_create'd thread that has called CurrentThread::tid() before"}
+WHERES = list(WHERE)
+
 INT_TYPES = {
     "i16": (-(1 << 15), (1 << 15) - 1), "u16": (0, (1 << 16) - 1),
     "i32": (-(1 << 31), (1 << 31) - 1), "u32": (0, (1 << 32) - 1),
@@ -312,6 +317,12 @@ class Prop:
         outs = [o for o in obs if o.startswith("out ")]
         if not emitted:
             return None if obs == ["out-none"] else ("gate", "a statement below the configured level %d produced %r" % (st["level"], obs[:1]))
+        if "aborted" in obs and not fatal:
+            # builds with asserts: a violated internal assertion is an observable event of its own
+            return ("abort", "a %s statement on %s aborted the process (%s) %s" % (
+                LEVELS[level].decode().strip(), WHERE.get(where, where),
+                "built with asserts" if env.get("asserts") == ["1"] else "NDEBUG build",
+                "after the line %r" % bytes.fromhex(outs[0][4:])[:80] if outs else "before any line was emitted"))
         if len(outs) != 1:
             return ("gate" if name == "macro" else "line", "expected exactly one line, got %r" % obs[:2])
         if fatal != ("aborted" in obs):
@@ -320,6 +331,10 @@ class Prop:
         if "now" not in env or "tid" not in env:
             return ("trace", "no clock / tid reading recorded")
         us, tid = int(env["now"][0]), int(env["tid"][0])
+        # `tid` is gettid() as the harness read it on the emitting thread (not through muduo); sanity of that report
+        if "ptid" in env and (tid == int(env["ptid"][0])) != (where == "main") or tid <= 0:
+            return ("trace", "the harness reported thread id %d for a line on %s (driver main thread: %s)"
+                    % (tid, WHERE.get(where, where), env.get("ptid")))
         if clk != "now" and us != int(clk):
             return ("clock", "the line was stamped with a reading %d that is not the clock's %s" % (us, clk))
         if clk == "now" and "bracket" in notes:
@@ -367,6 +382,11 @@ class Prop:
         off = 0
         for nm, ln in fields:
             if got[off:off + ln] != want[off:off + ln]:
+                if nm == "tid":
+                    return (nm, "thread-id field of a line logged on %s is %r; gettid() on that thread is %d, so %r is expected%s"
+                            % (WHERE.get(where, where), got[off:off + ln], tid, want[off:off + ln],
+                               " (that is the id of the forking thread)" if where == "fork" and "ptid" in env
+                               and got[off:off + ln] == b"%5d " % int(env["ptid"][0]) else ""))
                 return (nm, "field %s is %r, expected %r" % (nm, got[off:off + ln], want[off:off + ln]))
             off += ln
         if not got.endswith(want[want.rfind(b" - "):]) and len(want) < KSMALL - 200:
@@ -540,7 +560,7 @@ class Prop:
         base = [rng.randrange(1000000, 4000000000000000)]
         for _ in range(rng.randrange(2, 14)):
             r = rng.random()
-            where = rng.choice(["main", "main", "main", "thread", "fork"])
+            where = rng.choice(["main", "main", "main", "thread", "fork", "raw0", "raw1"])
             if r < 0.07:
                 lines.append("setlevel %d" % rng.randrange(0, 6))
                 continue
@@ -575,6 +595,28 @@ class Prop:
                 lines.append("line %s %s %d %s %d %s %d %s msg %s" % (
                     where, ctor, lv, clk, rng.choice([0, 1, 2, 9, 11, 32, 110, 133, 200, 4095]), self.path_arg(rng),
                     rng.choice([0, 1, 42, 99999, 2147483647, -1, -2147483648, rng.randrange(1, 100000)]), func, self.msg_arg(rng)))
+        return lines
+
+    def thread_section(self, rng):
+        """every thread kind x a constructor and a macro, no FATAL: the thread-id field (C17 "the calling thread's id,
+        also in a forked child"); a foreign thread's first muduo call is the log statement itself"""
+        lines = []
+        zone = rng.choice([None, 28800, -18000, rng.randrange(-86400, 86401)])
+        lines.append("setzone %s" % ("none" if zone is None else zone))
+        lines.append("setlevel %d" % rng.randrange(0, 3))
+        base = [rng.randrange(1000000, 4000000000000000)]
+        order = WHERES + [rng.choice(WHERES) for _ in range(3)]
+        rng.shuffle(order)
+        for where in order:
+            clk = self.rand_clock(rng, zone, base)
+            if rng.random() < 0.5:
+                lines.append("macro %s %d %d %d %s" % (where, rng.choice([2, 3, 4, 6]), clk, rng.choice([0, 2, 11]), self.msg_arg(rng)))
+            else:
+                ctor = rng.choice(["c2", "c3", "c4", "cb"])
+                func = "h:" + b"f".hex() if ctor == "c4" else "-"
+                lines.append("line %s %s %d %d %d %s %d %s msg %s" % (
+                    where, ctor, rng.randrange(0, 5), clk, rng.choice([0, 1, 9]), self.path_arg(rng),
+                    rng.randrange(1, 100000), func, self.msg_arg(rng)))
         return lines
 
     @staticmethod
@@ -705,6 +747,25 @@ class Prop:
                 self.run_lines(ctx, ctx.exe("logstream_drv", fl), lines, "replay:" + os.path.basename(replay))
             return
         thorough = (not ctx.quick()) or ctx.search_mode
+        # 0. the thread-id field on every kind of thread, in a build with asserts and in an NDEBUG build (in a build
+        #    with asserts a stale / empty tid cache is an abort inside Logger::Impl::Impl, in an NDEBUG build a wrong field)
+        tid_flavours = flavours if "ndebug" in flavours else flavours + ["ndebug"]
+        ctx.extra["thread_kind_flavours"] = tid_flavours
+        for fl in tid_flavours:
+            exe = ctx.exe("logstream_drv", fl)
+            for p in sorted(glob.glob(os.path.join(CORPUS, "C17", "M-tid-*.case"))):
+                self.run_lines(ctx, exe, self.corpus_lines(p), "corpus:" + os.path.basename(p))
+            if self.stop(ctx):
+                return
+            lines, secs = [], []
+            for i in range(60 if thorough else 12):
+                sec = self.thread_section(ctx.rng)
+                secs.append((len(lines), len(lines) + len(sec)))
+                lines += sec
+            self.run_lines(ctx, exe, lines, "thread-kinds", secs)
+            ctx.count("thread_kind_sections:" + fl, len(secs))
+            if self.stop(ctx):
+                return
         for fi, fl in enumerate(flavours):
             exe = ctx.exe("logstream_drv", fl)
             # 1. corpus first (witnesses of F8 / F18 and minimised past failures)
